@@ -22,6 +22,7 @@ import (
 	"strconv"
 	"strings"
 	"sync"
+	"sync/atomic"
 	"testing"
 	"time"
 
@@ -478,6 +479,21 @@ func seed() int64 {
 	return s
 }
 
+// raceDS lets a certificate be finalized between the moment the server computed the pending instance it
+// advertises and the moment it reads the range from the datastore.
+type raceDS struct {
+	datastore.Datastore
+	armed  atomic.Bool
+	onRead func()
+}
+
+func (d *raceDS) Get(ctx context.Context, key datastore.Key) ([]byte, error) {
+	if strings.Contains(key.String(), "/certs/") && d.armed.CompareAndSwap(true, false) {
+		d.onRead()
+	}
+	return d.Datastore.Get(ctx, key)
+}
+
 // ---------------------------------------------------------------------------- TestServe
 func TestServe(t *testing.T) {
 	rec := newRecorder(t, "VERIF_OUT")
@@ -548,6 +564,52 @@ func TestServe(t *testing.T) {
 		if err := srv.Stop(ctx); err != nil {
 			t.Fatal(err)
 		}
+	}
+
+	// a certificate is finalized while a request is being served (after the header was computed)
+	{
+		rds := &raceDS{Datastore: ds_sync.MutexWrap(datastore.NewMapDatastore())}
+		cs, err := certstore.CreateStore(ctx, rds, 0, fx.table(0))
+		if err != nil {
+			t.Fatal(err)
+		}
+		for i := uint64(0); i < 4; i++ {
+			if err := cs.Put(ctx, fx.cert(i)); err != nil {
+				t.Fatal(err)
+			}
+		}
+		rds.onRead = func() {
+			if err := cs.Put(ctx, fx.cert(pendingOf(cs))); err != nil {
+				panic(err)
+			}
+		}
+		emitStore := func() {
+			n := pendingOf(cs)
+			tabs := []string{}
+			for i := uint64(0); i <= n; i++ {
+				tabs = append(tabs, tableHash(fx.table(i)))
+			}
+			rec.emit(map[string]any{"ev": "Store", "first": 0, "certs": storedEncodings(ctx, rds.Datastore, 0, n), "tables": tabs, "pending": n})
+		}
+		srv := &certexchange.Server{NetworkName: nn, Host: srvHost, Store: cs}
+		if err := srv.Start(ctx); err != nil {
+			t.Fatal(err)
+		}
+		for _, r := range []certexchange.Request{{FirstInstance: 0, Limit: math.MaxUint64}, {FirstInstance: 2, Limit: 256}, {FirstInstance: 3, Limit: 5, IncludePowerTable: true}} {
+			for _, via := range []string{"client", "raw"} {
+				emitStore()
+				rds.armed.Store(true)
+				var ev map[string]any
+				if via == "client" {
+					ev = viaClient(ctx, client, srvHost, r)
+				} else {
+					ev = viaRaw(ctx, cliHost, srvHost, r)
+				}
+				ev["ev"], ev["via"], ev["first"], ev["limit"], ev["pt"] = "Serve", via+"-race", clip(r.FirstInstance), clip(r.Limit), r.IncludePowerTable
+				rec.emit(ev)
+			}
+		}
+		_ = srv.Stop(ctx)
 	}
 
 	// the real Client against the scripted responder: what does it hand to its caller?
